@@ -9,8 +9,8 @@ guarantees.  Written from the ROOT object-wise streaming rules, not from the par
   object header | byte count (mask bit set, = length of what follows) | class version (2 bytes) |
   TObject (version, unique id, bits [, pidf iff referenced]) | 5 × Int_t | doubles | Int_t[2] | Int_t[2][2]
 
-The C++ reader recognises the layout only from the byte count (96 / 88), which presupposes a TObject
-that is *not* referenced (a referenced one carries 2 more bytes: 98 / 90); `ClusterEnc.wf` says so.
+The byte count is the true length of the body: 96 / 88 for a TObject that is not referenced, 98 / 90 for
+a referenced one (which carries the 2-byte pidf).  Both are well-formed.
 -/
 namespace Pybes3Verif.Root.Spec
 open Pybes3Verif.Root
@@ -42,12 +42,11 @@ def encClusterBody (v : Nat) (c : ClusterEnc) : List Nat :=
 def encCluster (v : Nat) (c : ClusterEnc) : List Nat :=
   encObjHdr c.hdr ++ be 4 ((encClusterBody v c).length + kByteCountMask) ++ encClusterBody v c
 
-/-- well-formed cluster of layout `v`: header and TObject words in range, TObject not referenced,
+/-- well-formed cluster of layout `v`: header and TObject words in range (referenced or not),
 member counts of the layout, every member in the range of its machine type (raw bit patterns) -/
 def ClusterEnc.wf (v : Nat) (c : ClusterEnc) : Bool :=
   c.hdr.wf && decide (c.clsVersion < 65536) && decide (c.tVersion < 65536) &&
     decide (c.uid < 4294967296) && decide (c.bits < 4294967296) && decide (c.pidf < 65536) &&
-    decide (c.bits &&& kIsReferenced = 0) &&
     decide (c.value.ints.length = 5) && c.value.ints.all (fun x => decide (x < 4294967296)) &&
     decide (c.value.doubles.length = nDoubles v) &&
     c.value.doubles.all (fun x => decide (x < 18446744073709551616)) &&
@@ -90,6 +89,10 @@ def sampleCluster1 : ClusterEnc :=
                doubles := [0x3FB999999999999A, 0x400921FB54442D18, 0x4024000000000000, 0xBFF0000000000000]
                clusterFlag := [1, 2], stripID := [3, 4, 5, 6] } }
 
+/-- a layout-0 cluster whose TObject is referenced (`kIsReferenced` set, pidf written: byte count 98) -/
+def sampleCluster0Ref : ClusterEnc :=
+  { sampleCluster0 with uid := 0x01000007, bits := 0x03000010, pidf := 1 }
+
 def sampleArrHdr : ArrHdr :=
   { count := 30, version := 3, tobjVersion := 1, uniqueID := 0, bits := 0x03000000, lowerBound := 0 }
 
@@ -97,6 +100,10 @@ def sampleObjHdr : ObjHdr := { count := 40, className := none, refTag := 0x80000
 
 /-- an event holding one layout-0 cluster -/
 def sampleEventOne : CgemEntryEnc := { hdr := sampleObjHdr, arr := sampleArrHdr, clusters := [sampleCluster0] }
+
+/-- an event whose first cluster is referenced, followed by an unreferenced one -/
+def sampleEventRef : CgemEntryEnc :=
+  { hdr := sampleObjHdr, arr := sampleArrHdr, clusters := [sampleCluster0Ref, sampleCluster0] }
 
 /-- an event holding no cluster -/
 def sampleEventNone : CgemEntryEnc := { hdr := sampleObjHdr, arr := sampleArrHdr, clusters := [] }
